@@ -57,6 +57,18 @@ fn tags_line(indent: &str, tags: &[String]) -> String {
     }
 }
 
+/// Step keyword for step `i` (0-based) of the block owned by `owner`: the
+/// first step of a block is Given / When / Then, later ones also And / But,
+/// so all three tables of a step collection and keyword inheritance are used.
+fn keyword(owner: &str, i: usize) -> &'static str {
+    let h = owner.bytes().map(usize::from).sum::<usize>() + i;
+    if i == 0 {
+        ["Given", "When", "Then"][h % 3]
+    } else {
+        ["And", "When", "Then", "But", "Given"][h % 5]
+    }
+}
+
 impl FeatureSpec {
     /// Renders this feature as Gherkin text.
     pub fn render(&self) -> String {
@@ -67,7 +79,8 @@ impl FeatureSpec {
             o.push_str("  Background:\n");
             for (i, k) in self.bg.iter().enumerate() {
                 o.push_str(&format!(
-                    "    Given {} bg {} {k}\n",
+                    "    {} {} bg {} {k}\n",
+                    keyword(&self.name, i),
                     self.name,
                     i + 1
                 ));
@@ -83,7 +96,8 @@ impl FeatureSpec {
             }
             for (i, k) in s.steps.iter().enumerate() {
                 o.push_str(&format!(
-                    "{ind}  Given {} step {} {k}\n",
+                    "{ind}  {} {} step {} {k}\n",
+                    keyword(&s.name, i),
                     s.name,
                     i + 1
                 ));
@@ -99,7 +113,8 @@ impl FeatureSpec {
                 o.push_str("    Background:\n");
                 for (i, k) in r.bg.iter().enumerate() {
                     o.push_str(&format!(
-                        "      Given {} bg {} {k}\n",
+                        "      {} {} bg {} {k}\n",
+                        keyword(&r.name, i),
                         r.name,
                         i + 1
                     ));
